@@ -234,6 +234,20 @@ class Run:
         self.assume_axioms = sorted(axioms)
         return True
 
+    def coqchk(self, timeout=3000):
+        """Thorough tier: re-check the compiled property file and everything it depends on with the
+        independent checker; report the axioms it lists."""
+        mod = "Sekai.Properties.%s" % self.pid
+        with Lock("coq"):
+            rc, o, dt = sh(["timeout", str(timeout), "coqchk", "-silent", "-o", "-Q", ".", "Sekai", mod], cwd=COQ)
+        self.note("coqchk", mod, "rc", rc, "%.1fs" % dt, o[-1500:])
+        m = re.search(r"\* Axioms:(.*?)\n\s*\n\* Constants", o, re.S)
+        ax = " ".join((m.group(1) if m else "?").split())
+        flags = re.findall(r"relying on (type-in-type|unsafe \(co\)fixpoints): (.*)", o) + re.findall(r"positivity is assumed: (.*)", o)
+        clean = all("<none>" in (f[-1] if isinstance(f, tuple) else f) for f in flags)
+        self.coverage["coqchk"] = {"axioms": ax, "seconds": round(dt, 1)}
+        return self.oblige("coqchk -o %s: axioms %s; no type-in-type / unsafe fixpoints / assumed positivity" % (mod, ax), rc == 0 and clean, o[-1500:])
+
     def audit(self):
         """No Admitted/admit/Axiom/Parameter/... anywhere in the development."""
         hits = []
